@@ -1,13 +1,19 @@
 (* C03 - rules are evaluated with the documented first-match semantics.   (PARTIAL)
-   Proved for every input: conditions are exactly the boolean formulas over the matchers; in any
-   block of plain rules (any conditions, any action lists without pass / break, no nesting) the
-   first matching rule wins and exactly its actions are performed.  The general statement for
-   pass / break / nested blocks is kept below as [C03_first_match_statement]; it is NOT proved:
-   it is checked by the bounded-exhaustive and random correspondence of harness/c03.py against
-   [spec_run], and it is known to need the exclusions recorded as refuted lemmas. *)
+   Proved for every input:
+   - conditions are exactly the boolean formulas over the matchers;
+   - ARBITRARILY NESTED blocks of rules with plain action lists (no pass / break), any conditions: a nested block is
+     entered only if its condition holds, the first rule that matches in depth-first order wins and exactly its
+     actions are performed - equal to the documented semantics [spec_run] (C03_nested_first_match);
+   - FLAT blocks whose action lists may end with pass or break, conditions without negation: the actions other than
+     move / flag performed are exactly those the documented semantics selects - first match wins, pass keeps the
+     actions and continues, break abandons the block (C03_flat_pass_break).
+   NOT proved: pass / break inside nested blocks (the statement [C03_first_match_statement] below; it needs the
+   exclusions recorded as refuted lemmas: a pass or action pending from another block decides a block, a failed
+   negation clears the list, location entries merge with the first pending one) - checked by the bounded-exhaustive
+   and random correspondence of harness/c03.py against [spec_run]. *)
 From Coq Require Import List Bool Arith.
 Import ListNotations.
-From MD Require Import EvalDefs EvalProofs.
+From MD Require Import EvalDefs EvalProofs EvalProofs2 EvalProofs3.
 
 (* a condition built from and / or / ! / parentheses over matchers evaluates to its boolean meaning,
    whatever the match list holds and whichever sub-conditions are short-circuited *)
@@ -32,6 +38,30 @@ Theorem C03_first_match_partial : forall rs env, forallb flat_rule rs = true ->
   end.
 Proof. exact flat_first_match. Qed.
 Print Assumptions C03_first_match_partial.
+
+(* nesting: depth-first, first match wins; equal to the documented semantics *)
+Theorem C03_nested_first_match : forall rs env, plain_rules rs = true ->
+  run_rules rs env = option_map entries_of (spec_run rs env).
+Proof. exact nested_first_match_spec. Qed.
+Print Assumptions C03_nested_first_match.
+
+Theorem C03_nested_depth_first : forall rs env, plain_rules rs = true ->
+  run_rules rs env = match first_tree (S (size_rules rs)) rs env with Some acts => Some (entries_of acts) | None => None end.
+Proof. exact nested_first_match. Qed.
+Print Assumptions C03_nested_depth_first.
+
+(* pass and break in a flat block: the non-location actions are those of the documented semantics *)
+Theorem C03_flat_pass_break : forall rs env, forallb flat2_rule rs = true ->
+  option_map others_e (run_rules rs env) = option_map (filter other_act) (spec_run rs env).
+Proof. exact flat_pass_break. Qed.
+Print Assumptions C03_flat_pass_break.
+
+Example C03_ex_nested_pass :
+  let rules := [RActs (CAtom 0) [XLabel 0; XPass]; RActs (CAtom 1) [XLabel 1; XBreak]; RActs CAll [XDiscard]] in
+  flat2_rule (hd (RActs CAll []) rules) = true /\
+  run_rules rules (fun a => Nat.eqb a 0) = Some [MAct (XLabel 0) (mkdest None None); MAct XDiscard (mkdest None None)] /\
+  run_rules rules (fun _ => true) = None.
+Proof. vm_compute. repeat split; reflexivity. Qed.
 
 (* the general statement (pass, break, nested blocks), on clean evaluations: NOT PROVED *)
 Definition C03_first_match_statement : Prop :=
